@@ -15,13 +15,22 @@ fn dec_str(s: &str) -> Result<Beatmap, String> {
     rosu_map::from_str::<Beatmap>(s).map_err(|e| format!("from_str returned Err({e})"))
 }
 
+/// decode a text as such: through UTF-8 *with* BOM, so that a text which itself starts with U+FEFF
+/// (indistinguishable from a BOM in plain UTF-8) keeps that character
+fn dec_text(text: &str) -> Result<Beatmap, String> {
+    dec_bytes(&encode_text(text, Enc::Utf8Bom))
+}
+
 /// (a) the same text decodes to the same result in all four encodings
 fn check_encodings(text: &str) -> Result<(), String> {
-    let reference = dec_str(text)?;
-    for enc in [Enc::Utf8Bom, Enc::Utf16Le, Enc::Utf16Be] {
+    let reference = dec_text(text)?;
+    for enc in [Enc::Utf8, Enc::Utf16Le, Enc::Utf16Be] {
+        if enc == Enc::Utf8 && text.starts_with('\u{feff}') {
+            continue; // plain UTF-8 would read the text's first character as a BOM
+        }
         let got = dec_bytes(&encode_text(text, enc))?;
         if let Some(d) = full_diff(&reference, &got) {
-            return Err(format!("the text decodes differently as {}: {d}", enc.name()));
+            return Err(format!("the text decodes differently as {} than as utf8-bom: {d}", enc.name()));
         }
     }
     Ok(())
@@ -35,7 +44,7 @@ fn check_utf8_lossy(bytes: &[u8]) -> Result<(), String> {
     }
     let lossy = String::from_utf8_lossy(body);
     let got = dec_bytes(bytes)?;
-    let want = dec_str(&lossy)?;
+    let want = if bytes.len() != body.len() { dec_text(&lossy)? } else { dec_str(&lossy)? };
     if let Some(d) = full_diff(&want, &got) {
         return Err(format!("bytes with invalid UTF-8 decode differently from their lossy conversion: {d}"));
     }
@@ -53,7 +62,7 @@ fn check_utf16_lossy(units: &[u16], le: bool, tail: Option<u8>) -> Result<(), St
     }
     let lossy = String::from_utf16_lossy(units);
     let got = dec_bytes(&bytes)?;
-    let want = dec_str(&lossy)?;
+    let want = dec_text(&lossy)?;
     if let Some(d) = full_diff(&want, &got) {
         return Err(format!(
             "UTF-16{} input{} decodes differently from its lossy conversion: {d}",
@@ -167,7 +176,28 @@ pub fn run(ctx: &mut Ctx) {
     let cases = ctx.tier.pick(400_000u64, 3_000_000u64);
     ctx.pbt("c10-random", cases, 2600, |t, st| {
         let text = gen_text_for(t);
-        let text = text.trim_start_matches('\u{feff}').to_string();
+        let mut text = text.trim_start_matches('\u{feff}').to_string();
+        if t.chance(35) {
+            // Unicode (non-ASCII) whitespace at line ends, before line starts and on lines of its own
+            const WS: &[&str] = &["\u{a0}", "\u{3000}", "\u{2009}", "\u{85}", "\u{2028}", "\u{b}", "\u{c}", "\u{1680}", "\u{feff}", "\u{200b}"];
+            let mut lines: Vec<String> = text.split('\n').map(|s| s.to_string()).collect();
+            let n = 1 + t.below(4);
+            for _ in 0..n {
+                if lines.is_empty() {
+                    break;
+                }
+                let i = t.below(lines.len());
+                match t.below(3) {
+                    0 => lines[i].push_str(*t.pick(WS)),
+                    1 => lines.insert(i, (*t.pick(WS)).to_string()),
+                    _ => lines[i] = format!("{}{}", t.pick(WS), lines[i]),
+                }
+            }
+            text = lines.join("\n");
+            // a text that starts with U+FEFF is indistinguishable from BOM + text
+            text = text.trim_start_matches('\u{feff}').to_string();
+            st.label("unicode whitespace injected");
+        }
         st.eval();
         // (a)
         check_encodings(&text).map_err(|m| Fail::new(m, "osu", text.clone().into_bytes()))?;
@@ -246,9 +276,11 @@ pub fn replay(_ctx: &mut Ctx, ext: &str, bytes: &[u8]) -> Result<Option<String>,
 pub fn check_plain(bytes: &[u8]) -> Result<(), String> {
     let text = crate::refmodel::framing::decode_bytes(bytes);
     let got = dec_bytes(bytes)?;
-    let want = dec_str(&text)?;
+    // (a BOM-less input keeps its meaning as plain UTF-8; with a BOM the text is what follows it)
+    let has_bom = bytes.starts_with(&[0xEF, 0xBB, 0xBF]) || bytes.starts_with(&[0xFF, 0xFE]) || bytes.starts_with(&[0xFE, 0xFF]);
+    let want = if has_bom { dec_text(&text)? } else { dec_str(&text)? };
     if let Some(d) = full_diff(&want, &got) {
         return Err(format!("bytes decode differently from their lossy text: {d}"));
     }
-    check_encodings(text.trim_start_matches('\u{feff}'))
+    check_encodings(&text)
 }
